@@ -1,0 +1,65 @@
+//go:build verif
+
+package server
+
+import (
+	"sort"
+
+	"github.com/fatedier/frp/pkg/util/verifhook"
+	"github.com/fatedier/frp/server/controller"
+	"github.com/fatedier/frp/server/ports"
+)
+
+// VerifCtl is a read-only projection of one Control (verification tooling only).
+type VerifCtl struct {
+	ID        string   `json:"id"`
+	RunID     string   `json:"run_id"`
+	LoginRun  string   `json:"login_run_id"`
+	User      string   `json:"user"`
+	Proxies   []string `json:"proxies"`
+	PortsUsed int      `json:"ports_used"`
+	PoolLen   int      `json:"pool_len"`
+	PoolCap   int      `json:"pool_cap"`
+	PoolCount int      `json:"pool_count"`
+}
+
+// VerifState is a read-only projection of the server tables.
+type VerifState struct {
+	Ctls  []VerifCtl          `json:"ctls"`
+	Names []string            `json:"names"`
+	TCP   ports.VerifSnapshot `json:"tcp"`
+	UDP   ports.VerifSnapshot `json:"udp"`
+}
+
+func (ctl *Control) verifProject() VerifCtl {
+	ctl.mu.RLock()
+	defer ctl.mu.RUnlock()
+	c := VerifCtl{ID: verifhook.ID(ctl), RunID: ctl.runID, LoginRun: ctl.loginMsg.RunID, User: ctl.loginMsg.User,
+		PortsUsed: ctl.portsUsedNum, PoolLen: len(ctl.workConnCh), PoolCap: cap(ctl.workConnCh), PoolCount: ctl.poolCount, Proxies: []string{}}
+	for n := range ctl.proxies {
+		c.Proxies = append(c.Proxies, n)
+	}
+	sort.Strings(c.Proxies)
+	return c
+}
+
+func (svr *Service) VerifState() VerifState {
+	st := VerifState{Ctls: []VerifCtl{}}
+	svr.ctlManager.mu.RLock()
+	ctls := make([]*Control, 0, len(svr.ctlManager.ctlsByRunID))
+	for _, c := range svr.ctlManager.ctlsByRunID {
+		ctls = append(ctls, c)
+	}
+	svr.ctlManager.mu.RUnlock()
+	for _, c := range ctls {
+		st.Ctls = append(st.Ctls, c.verifProject())
+	}
+	sort.Slice(st.Ctls, func(i, j int) bool { return st.Ctls[i].LoginRun < st.Ctls[j].LoginRun })
+	st.Names = svr.pxyManager.VerifNames()
+	st.TCP = svr.rc.TCPPortManager.VerifSnapshot()
+	st.UDP = svr.rc.UDPPortManager.VerifSnapshot()
+	return st
+}
+
+// VerifRC exposes the resource controller (verification tooling only).
+func (svr *Service) VerifRC() *controller.ResourceController { return svr.rc }
